@@ -536,7 +536,11 @@ func TestVerifConc(t *testing.T) {
 	genRuns, _ := strconv.Atoi(os.Getenv("VERIF_GENRUNS"))
 	nfixedSc := len(scenarios)
 	scenarios = append(scenarios, genScenarios(which, seed, ngen)...)
+	hangs := 0
 	for si, sc := range scenarios {
+		if hangs >= 5 {
+			break
+		}
 		maxRuns := maxRuns
 		if si >= nfixedSc && genRuns > 0 {
 			maxRuns = genRuns
@@ -568,6 +572,12 @@ func TestVerifConc(t *testing.T) {
 			enc.Encode(r)
 			runs++
 			total++
+			if r.Hang {
+				hangs++
+				if hangs >= 5 {
+					break
+				}
+			}
 			// alternatives after the given prefix
 			for d := len(it.prefix); d < len(r.Sched) && d < len(r.Choices); d++ {
 				for _, alt := range r.Choices[d] {
